@@ -289,6 +289,24 @@ func (e *Engine) VerifyFunction(key string, property string, safety bool) (res *
 	if c.aborted != "" {
 		res.Aborted = c.aborted
 	}
+	// "rejects <cond>": from any state satisfying cond (a misuse state; the ordinary preconditions
+	// are NOT assumed) the function never returns normally
+	if ct != nil && c.aborted == "" {
+		for _, cl := range ct.Clauses {
+			if cl.Kind == "rejects" && c.tagSelected(cl.Tags) {
+				c.rejectClause = cl
+				savedSafety := c.safety
+				c.safety = false
+				c.run()
+				c.safety = savedSafety
+				c.rejectClause = nil
+				if c.aborted != "" {
+					res.Aborted = c.aborted
+					break
+				}
+			}
+		}
+	}
 	return
 }
 
@@ -347,7 +365,11 @@ func (c *Ctx) run() {
 	c.entrySnap = st.snap()
 	fr.entry = c.entrySnap
 	hasRequires := false
-	if ct != nil {
+	if ct != nil && c.rejectClause != nil {
+		se := &SpecEnv{c: c, st: st, vars: fr.env, pkg: ct.Pkg, fr: fr}
+		st.assume(se.assumeF(c.rejectClause.E))
+		c.obls = append(c.obls, &Obligation{Func: c.fnKey(), Kind: "rejects", Name: c.fnKey() + "#rejects-nonvacuous#" + c.rejectClause.Hash(), Desc: "the misuse condition is satisfiable: " + normSpace(c.rejectClause.Text), Goal: "false", Lines: st.lines.collect(), Expect: "sat", Clause: c.rejectClause, Tags: c.rejectClause.Tags})
+	} else if ct != nil {
 		se := &SpecEnv{c: c, st: st, vars: fr.env, pkg: ct.Pkg, fr: fr}
 		for _, cl := range ct.Clauses {
 			if cl.Kind == "requires" {
@@ -364,6 +386,11 @@ func (c *Ctx) run() {
 	fr.onReturn = func(st2 *State, results []T) {
 		c.returns++
 		if ct == nil {
+			return
+		}
+		if c.rejectClause != nil {
+			cl := c.rejectClause
+			c.obls = append(c.obls, &Obligation{Func: c.fnKey(), Kind: "rejects", Name: c.fnKey() + "#rejects#" + cl.Hash(), Desc: "no normal return when: " + normSpace(cl.Text), Goal: "false", Lines: st2.lines.collect(), Clause: cl, Tags: cl.Tags, Path: strings.Join(st2.pathDesc, ",")})
 			return
 		}
 		env := map[string]T{}
